@@ -48,6 +48,15 @@ def rmap(func, data):
     return func(data)
 
 
+def rtolist(data):
+    """ Turn the numpy arrays inside nested data into lists. """
+    if hasattr(data, "shape") and hasattr(data, "tolist"):
+        return data.tolist()
+    if isinstance(data, Mapping) or not isinstance(data, Iterable):
+        return data
+    return type(data)([rtolist(elem) for elem in data])
+
+
 def rsubs(data, *args):
     """ Substitute recursively along nested data. """
     return rmap(lambda x: getattr(x, "subs", lambda *_: x)(*args), data)
@@ -567,7 +576,7 @@ class Box(Arrow):
         if not any(x in self.free_symbols for x in symbols):
             return lambda *xs: self
         from sympy import lambdify
-        data = self.data.tolist() if hasattr(self.data, "tolist") else self.data
+        data = rtolist(self.data)
         return lambda *xs: type(self)(
             self.name, self.dom, self.cod, _dagger=self._dagger,
             data=lambdify(symbols, data, **kwargs)(*xs))
